@@ -335,6 +335,19 @@ func (ex *Exec) appendOp(st *State, site ssa.Instruction, sv Value, tv Value, et
 
 // ---------- maps ----------
 
+// newMapC chooses the array-backed representation for maps from small integers to scalars.
+func (ex *Exec) newMapC(mt *types.Map) *MapC {
+	ks, okK := sortOf(mt.Key())
+	vs, okV := sortOf(mt.Elem())
+	if okK && okV && ks.K == smt.KBV && ks.W <= 16 && !ex.NoArrMaps {
+		zero := ex.zero(mt.Elem()).(*smt.Term)
+		_ = vs
+		return &MapC{KT: mt.Key(), VT: mt.Elem(), Arr: true,
+			Pres: smt.ArrConst(ks.W, smt.False), Val: smt.ArrConst(ks.W, zero), Count: bv64(0)}
+	}
+	return &MapC{KT: mt.Key(), VT: mt.Elem()}
+}
+
 func (ex *Exec) keyEq(a, b Value) *smt.Term { return ex.eqV(a, b) }
 
 func (ex *Exec) mapLookup(st *State, m Value, k Value, mt *types.Map) (Value, *smt.Term) {
@@ -350,6 +363,13 @@ func (ex *Exec) mapLookup(st *State, m Value, k Value, mt *types.Map) (Value, *s
 		panic(unsupported("lookup in " + describe(m)))
 	}
 	mc := ex.get(st, mv.Obj).(*MapC)
+	if mc.Arr {
+		kt := k.(*smt.Term)
+		if kt.IsConst() && mc.Sure[kt.V] {
+			return smt.Select(mc.Val, kt), smt.True
+		}
+		return smt.Select(mc.Val, kt), smt.Select(mc.Pres, kt)
+	}
 	// fast path: concrete key identity match with constant presence
 	ki := keyIdent(k)
 	found := smt.False
@@ -387,6 +407,41 @@ func (ex *Exec) mapUpdate(st *State, site ssa.Instruction, m Value, k Value, v V
 		panic(unsupported("map update on " + describe(m)))
 	}
 	mc := ex.get(st, mv.Obj).(*MapC)
+	if mc.Arr {
+		kt := k.(*smt.Term)
+		was := smt.Select(mc.Pres, kt)
+		sure := mc.Sure
+		if kt.IsConst() {
+			if sure[kt.V] {
+				was = smt.True
+			} else {
+				ns := make(map[uint64]bool, len(sure)+1)
+				for a, b := range sure {
+					ns[a] = b
+				}
+				ns[kt.V] = true
+				sure = ns
+			}
+		}
+		pres := mc.Pres
+		if !was.IsTrue() {
+			pres = smt.Store(mc.Pres, kt, smt.True)
+		}
+		cand := mc.Cand
+		dup := false
+		for _, c := range cand {
+			if c == kt {
+				dup = true
+				break
+			}
+		}
+		if !dup {
+			cand = append(append([]*smt.Term(nil), cand...), kt)
+		}
+		st.heap[mv.Obj] = &MapC{KT: mc.KT, VT: mc.VT, Arr: true, Pres: pres, Val: smt.Store(mc.Val, kt, v.(*smt.Term)),
+			Count: smt.Add(mc.Count, smt.Ite(was, bv64(0), bv64(1))), Cand: cand, Sure: sure}
+		return
+	}
 	ki := keyIdent(k)
 	out := make([]MapEntry, 0, len(mc.Entries)+1)
 	placed := false
@@ -417,6 +472,26 @@ func (ex *Exec) mapDelete(st *State, m Value, k Value) {
 		return // delete on nil map is a no-op
 	}
 	mc := ex.get(st, mv.Obj).(*MapC)
+	if mc.Arr {
+		kt := k.(*smt.Term)
+		was := smt.Select(mc.Pres, kt)
+		var sure map[uint64]bool
+		if kt.IsConst() {
+			if mc.Sure[kt.V] {
+				was = smt.True
+			}
+			sure = make(map[uint64]bool, len(mc.Sure))
+			for a, b := range mc.Sure {
+				if a != kt.V {
+					sure[a] = b
+				}
+			}
+		} // a symbolic delete may remove any key: nothing stays certain
+		zero := ex.zero(mc.VT).(*smt.Term)
+		st.heap[mv.Obj] = &MapC{KT: mc.KT, VT: mc.VT, Arr: true, Pres: smt.Store(mc.Pres, kt, smt.False), Val: smt.Store(mc.Val, kt, zero),
+			Count: smt.Sub(mc.Count, smt.Ite(was, bv64(1), bv64(0))), Cand: mc.Cand, Sure: sure}
+		return
+	}
 	out := make([]MapEntry, 0, len(mc.Entries))
 	for _, e := range mc.Entries {
 		eq := ex.keyEq(k, e.K)
@@ -435,6 +510,9 @@ func (ex *Exec) mapLen(st *State, m Value) *smt.Term {
 		return bv64(0)
 	}
 	mc := ex.get(st, mv.Obj).(*MapC)
+	if mc.Arr {
+		return mc.Count
+	}
 	n := bv64(0)
 	for _, e := range mc.Entries {
 		n = smt.Add(n, smt.Ite(e.P, bv64(1), bv64(0)))
@@ -455,12 +533,41 @@ func (ex *Exec) rangeStart(st *State, in *ssa.Range, x Value) Value {
 	case *MapV:
 		mc := ex.get(st, v.Obj).(*MapC)
 		it := &IterC{MapObj: v.Obj}
+		if mc.Arr {
+			for _, k := range mc.Cand {
+				if !(k.IsConst() && mc.Sure[k.V]) && smt.Select(mc.Pres, k).IsFalse() {
+					continue
+				}
+				it.Keys = append(it.Keys, k)
+				it.ToVisit = append(it.ToVisit, smt.True)
+			}
+		}
 		for _, e := range mc.Entries {
 			it.Keys = append(it.Keys, e.K)
 			it.ToVisit = append(it.ToVisit, smt.True)
 		}
+		it.Distinct = true
+		seenK := map[string]bool{}
+		for _, k := range it.Keys {
+			t, isT := k.(*smt.Term)
+			if (isT && !t.IsConst()) || seenK[keyIdent(k)] {
+				it.Distinct = false
+				break
+			}
+			if !isT {
+				if sv, isS := k.(*StrV); !isS {
+					it.Distinct = false
+					break
+				} else if _, c := sv.Concrete(); !c {
+					it.Distinct = false
+					break
+				}
+			}
+			seenK[keyIdent(k)] = true
+		}
 		if ex.PermuteMaps && len(it.Keys) > 1 && len(it.Keys) <= 4 {
 			ex.permuteIter(st, it)
+			it.Distinct = false
 		}
 		id := ex.newObj(st, it)
 		return &IterV{Obj: id}
@@ -468,8 +575,8 @@ func (ex *Exec) rangeStart(st *State, in *ssa.Range, x Value) Value {
 		id := ex.newObj(st, &IterC{MapObj: 0})
 		return &IterV{Obj: id}
 	case *ChoiceV:
-		// iterate each alternative separately is not expressible with one iterator
-		panic(unsupported("range over a choice of maps"))
+		// one iterator per alternative; Next distributes over the choice
+		return ex.withChoice(st, v, func(st *State, a Value) Value { return ex.rangeStart(st, in, a) })
 	}
 	panic(unsupported("range over " + describe(x)))
 }
@@ -503,8 +610,14 @@ func (ex *Exec) permuteIter(st *State, it *IterC) {
 }
 
 func (ex *Exec) rangeNext(st *State, in *ssa.Next, itv Value) Value {
+	if _, ok := itv.(*ChoiceV); ok {
+		return ex.withChoice(st, itv, func(st *State, a Value) Value { return ex.rangeNext(st, in, a) })
+	}
 	iv := itv.(*IterV)
 	it := ex.get(st, iv.Obj).(*IterC)
+	if it.Invalid {
+		panic(unsupported("use of a range iterator after its paths diverged"))
+	}
 	tup := in.Type().(*types.Tuple)
 	if it.IsStr {
 		s, _ := it.Str.Concrete()
@@ -524,33 +637,44 @@ func (ex *Exec) rangeNext(st *State, in *ssa.Next, itv Value) Value {
 	mc := ex.get(st, it.MapObj).(*MapC)
 	mt := types.NewMap(mc.KT, mc.VT)
 	n := len(it.Keys)
-	// presence and value of each candidate key in the current map state
+	start := it.Start
+	// presence and value of each candidate key in the current map state (computed lazily: stop at the first
+	// candidate that is certainly present)
 	pres := make([]*smt.Term, n)
 	vals := make([]Value, n)
-	for i, k := range it.Keys {
+	var key, val Value = ex.zero(mc.KT), ex.zero(mc.VT)
+	chosen := make([]*smt.Term, n)
+	before := smt.False // some earlier candidate chosen
+	last := n
+	for i := start; i < n; i++ {
+		k := it.Keys[i]
+		if it.ToVisit[i].IsFalse() {
+			pres[i] = smt.False
+			chosen[i] = smt.False
+			continue
+		}
 		v, p := ex.mapLookup(st, &MapV{Obj: it.MapObj}, k, mt)
 		// a candidate equal to an earlier candidate is visited only once
-		for j := 0; j < i; j++ {
-			if keyIdent(it.Keys[j]) != keyIdent(k) {
-				p = smt.And(p, smt.Not(ex.keyEq(it.Keys[j], k)))
-			} else {
-				p = smt.False
+		if !it.Distinct {
+			for j := 0; j < i; j++ {
+				if keyIdent(it.Keys[j]) != keyIdent(k) {
+					p = smt.And(p, smt.Not(ex.keyEq(it.Keys[j], k)))
+				} else {
+					p = smt.False
+				}
 			}
 		}
 		pres[i] = smt.And(it.ToVisit[i], p)
 		vals[i] = v
-	}
-	// concrete fast path: first candidate with constant-true presence and all before constant-false
-	ok := smt.False
-	var key, val Value = ex.zero(mc.KT), ex.zero(mc.VT)
-	chosen := make([]*smt.Term, n)
-	before := smt.False // some earlier candidate chosen
-	for i := 0; i < n; i++ {
 		chosen[i] = smt.And(pres[i], smt.Not(before))
 		before = smt.Or(before, pres[i])
+		if before.IsTrue() {
+			last = i + 1
+			break
+		}
 	}
-	ok = before
-	for i := n - 1; i >= 0; i-- {
+	ok := before
+	for i := last - 1; i >= start; i-- {
 		if chosen[i].IsFalse() {
 			continue
 		}
@@ -558,19 +682,26 @@ func (ex *Exec) rangeNext(st *State, in *ssa.Next, itv Value) Value {
 		val = mergeV(chosen[i], vals[i], val)
 	}
 	// new to-visit: entries after the chosen one
-	tv := make([]*smt.Term, n)
+	tv := append([]*smt.Term(nil), it.ToVisit...)
 	seenChosen := smt.False
-	for i := 0; i < n; i++ {
-		tv[i] = smt.And(it.ToVisit[i], seenChosen)
-		seenChosen = smt.Or(seenChosen, chosen[i])
+	for i := start; i < n; i++ {
+		if i < last {
+			tv[i] = smt.And(it.ToVisit[i], seenChosen)
+			seenChosen = smt.Or(seenChosen, chosen[i])
+		} else {
+			tv[i] = smt.And(it.ToVisit[i], seenChosen)
+		}
 	}
-	// drop a leading run of constant-false to-visit entries to keep things small
-	keys := it.Keys
-	for len(tv) > 0 && tv[0].IsFalse() {
-		tv = tv[1:]
-		keys = keys[1:]
+	for start < n && tv[start].IsFalse() {
+		start++
 	}
-	st.heap[iv.Obj] = &IterC{MapObj: it.MapObj, Keys: keys, ToVisit: tv}
+	st.heap[iv.Obj] = &IterC{MapObj: it.MapObj, Keys: it.Keys, ToVisit: tv, Start: start, Distinct: it.Distinct}
+	if ex.Trace && last > 100 && it.Start < n {
+		println("ITERDETAIL key0", describe(it.Keys[it.Start]), "tv", describe(it.ToVisit[it.Start]), "pres", describe(pres[it.Start]))
+	}
+	if ex.Trace {
+		println("ITER obj", it.MapObj, "n", n, "start", it.Start, "->", start, "last", last, "distinct", it.Distinct, "sure", len(mc.Sure), "terms", smt.NumTerms)
+	}
 	return &TupleV{E: []Value{ok, key, val}}
 }
 
